@@ -34,6 +34,7 @@ func TestMain(m *testing.M) {
 	rec = vlib.Open("C27")
 	rec.Rule("cases = (a) histories of etoken.FileSet operations (AddFile with random base, size and starting line; AddLine/SetLines/SetLinesForContent/AddLineColumnInfo; Position/PositionFor/File/Source queries at random Pos) compared with token.FileSet shifted by the starting line; " +
 		"(b) sources of 1-12 items (declarations, statements, comment and blank lines, multi-line functions, raw strings, block comments, indentation, multi-byte text, '#!' line) holding one offending token (undefined identifier, unexpected token, \"break\" breakpoint: exact position; type error, run-time panic: position if printed must lie in the statement) evaluated through Eval after ParseEvalPrint, EvalReader, EvalFile and Repl. " +
+		"(c) sessions: one source per entry point with 1-4 offending tokens of mixed kinds in different chunks, 0-3 ordinary chunks before each, OptTrapPanic on (every report checked) or off (reports up to the first error), non-trivial when an exactly checked report is preceded by at least one failed chunk spanning more than one line. " +
 		"A source case is non-trivial when the offending token is not in the first chunk and is preceded by at least one comment or blank line and at least one multi-line chunk; a FileSet history is non-trivial when it holds >=2 files with different non-zero starting lines and a query in a file that is not the first; distinct = distinct source texts / histories")
 	rec.Assume("the position of the offending token is known by construction (offset of the planted token in the generated text); columns are byte columns as in go/token")
 	rec.Assume("only error kinds whose offending token is unambiguous are compared exactly: undefined identifier, syntax error at the unexpected token, breakpoint statement; type errors and run-time panics are only required to report, if anything, a line inside the offending statement")
@@ -230,6 +231,9 @@ func replay(content []byte) error {
 	var probe map[string]json.RawMessage
 	if err := json.Unmarshal(content, &probe); err != nil {
 		return nil
+	}
+	if _, ok := probe["offenders"]; ok {
+		return replaySession(content)
 	}
 	if _, ok := probe["ops"]; ok {
 		var h fsHistory
